@@ -97,6 +97,8 @@ def run(chk, tier, seed):
         offenders.append("unclassified syntax: " + k)
     chk.cov["offending_items"] = offenders
 
+    if tier == "thorough":
+        sf.thorough_coqchk(chk, ["GAApi.Props.C13"])
     okh, texth, host = sf.host_build()
     chk.correspondence("C13: crate builds (rlib for the probes)", okh, texth[-2000:] if not okh else "")
     if not okh:
@@ -182,6 +184,11 @@ def run(chk, tier, seed):
         chk.correspondence("C13 Collect for %s<T: 'static>: pointer-holding instance rejected" % k, bool(all_rejected("cell:" + k)), "")
     chk.cov["table_corpus_crosschecks"] = n_x
 
+    if tier == "thorough":
+        res2 = sf.run_probes("c13", host, opt=True)
+        diff = [p for p in res if res2.get(p, {}).get("accepted") != res[p]["accepted"] or res2.get(p, {}).get("run_rc") != res[p].get("run_rc")]
+        chk.correspondence("C13 probes: same verdicts and oracle results with -C opt-level=2", not diff, ", ".join(diff))
+        chk.evaluations += len(res2)
     if offenders:
         chk.obligation("C13: offending items found by evaluating the checkers per item", False, "\n".join(offenders))
     for pid in list(sorted(res))[:6]:
@@ -190,6 +197,9 @@ def run(chk, tier, seed):
 
 def replay(path):
     txt = open(path).read()
+    if "no concrete failing input was found" in txt[:200]:
+        print(txt)   # names the theorem / correspondence that no longer checks; nothing to re-run
+        return 0
     m = re.search(r"(?m)^// probe (\S+)", txt)
     src = txt[txt.index("// probe "):] if "// probe " in txt else txt
     okh, texth, host = sf.host_build()
